@@ -1,6 +1,7 @@
 import BigtoolsModel.FView
 import BigtoolsModel.ChunkLines
 import BigtoolsModel.IndexerProof
+import BigtoolsModel.AtomsGen
 /-! # C18 — slicing a text input for parallel work loses nothing and reorders nothing
 
 Models: `FView.stepView` (`FileView::read` / `seek`), `CH.split` (`split_file_into_chunks_by_size`),
@@ -84,3 +85,37 @@ example : (IXP.found [(0, 1), (10, 1), (20, 2), (30, 2), (130, 3)] 50 0 1 none 1
     = some [(0, 1), (20, 2), (130, 3)] := by decide
 
 end Props.C18
+
+namespace FView
+
+/-- **The code's own read and seek arithmetic** (`file_view.rs`, regenerated from the source on every run): a step of the view
+    assembled from those expressions — read length, the three seek targets with their clamps, the position reported back, the
+    `End` arm's assertion — is the model's `stepView`, for every file, window, position and operation.
+    `fileview_refines_slice` is about `stepView`. -/
+theorem C18_source_fileview_step_is_the_models (file : List Nat) (v : View) (op : Op) (hw : v.lo ≤ v.hi) :
+    stepViewGen file v op = stepView true file v op := gen_fileview_step file v op hw
+
+end FView
+
+namespace IX
+
+/-- **The code's own bisection arithmetic** (`do_index` in bed/indexer.rs, regenerated from the source): the stop test, the probe
+    position, the test "no line starts between the probe and the limit" and the upper bounds passed to the three recursive
+    calls, put into the model's recursion, give exactly the model's repaired bisection — the function
+    `index_is_first_line_of_every_run` is about. -/
+theorem C18_source_bisection_is_the_models (f : File) (fuel : Nat) (st : St) (prevId : Nat) (nextId : Option Nat) (hi : Nat) :
+    doIndexGen f fuel st prevId nextId hi = doIndexFixed f fuel st prevId nextId hi :=
+  gen_index_bisection f fuel st prevId nextId hi
+
+end IX
+
+namespace CH
+
+/-- **The code's own chunking arithmetic** (`split_file_into_chunks_by_size`, regenerated from the source): chunk size, first cut
+    target, the tuple update after a cut, the clamp to the file size and the exit test, put into the model's loop, give exactly
+    the model's `split` — the function the chunking theorems are about. -/
+theorem C18_source_chunker_is_the_models (ls : List Nat) (chunks : Nat) : splitGen ls chunks = split ls chunks :=
+  gen_chunker ls chunks
+
+end CH
+
